@@ -1,0 +1,26 @@
+//go:build verif
+
+package v0
+
+import (
+	"sort"
+
+	"github.com/tendermint/tendermint/libs/clist"
+	"github.com/tendermint/tendermint/types"
+)
+
+// VerifSenders returns the peer ids recorded for tx (sorted) and whether tx is in the pool.
+func (mem *CListMempool) VerifSenders(tx types.Tx) ([]uint16, bool) {
+	e, ok := mem.txsMap.Load(tx.Key())
+	if !ok {
+		return nil, false
+	}
+	memTx := e.(*clist.CElement).Value.(*mempoolTx)
+	var out []uint16
+	memTx.senders.Range(func(k, _ interface{}) bool {
+		out = append(out, k.(uint16))
+		return true
+	})
+	sort.Slice(out, func(i, j int) bool { return out[i] < out[j] })
+	return out, true
+}
